@@ -686,28 +686,35 @@ char *search_include_paths(char *filename) {
   if (filename[0] == '/')
     return filename;
 
+  // The cache maps a filename to the index of its include path plus one.
   static HashMap cache;
-  char *cached = hashmap_get(&cache, filename);
-  if (cached)
-    return cached;
+  long cached = (long)hashmap_get(&cache, filename);
+  if (cached) {
+    include_next_idx = cached;
+    return format("%s/%s", include_paths.data[cached - 1], filename);
+  }
 
   // Search a file from the include paths.
   for (int i = 0; i < include_paths.len; i++) {
     char *path = format("%s/%s", include_paths.data[i], filename);
     if (!file_exists(path))
       continue;
-    hashmap_put(&cache, filename, path);
+    hashmap_put(&cache, filename, (void *)(long)(i + 1));
     include_next_idx = i + 1;
     return path;
   }
   return NULL;
 }
 
-static char *search_include_next(char *filename) {
-  for (; include_next_idx < include_paths.len; include_next_idx++) {
-    char *path = format("%s/%s", include_paths.data[include_next_idx], filename);
-    if (file_exists(path))
-      return path;
+// Search a file from the include paths following the one in which
+// the current file was found.
+static char *search_include_next(char *filename, int idx) {
+  for (; idx < include_paths.len; idx++) {
+    char *path = format("%s/%s", include_paths.data[idx], filename);
+    if (!file_exists(path))
+      continue;
+    include_next_idx = idx + 1;
+    return path;
   }
   return NULL;
 }
@@ -797,7 +804,7 @@ static char *detect_include_guard(Token *tok) {
   return NULL;
 }
 
-static Token *include_file(Token *tok, char *path, Token *filename_tok) {
+static Token *include_file(Token *tok, char *path, Token *filename_tok, int next_idx) {
   // Check for "#pragma once"
   if (hashmap_get(&pragma_once, path))
     return tok;
@@ -813,6 +820,7 @@ static Token *include_file(Token *tok, char *path, Token *filename_tok) {
   Token *tok2 = tokenize_file(path);
   if (!tok2)
     error_tok(filename_tok, "%s: cannot open file: %s", path, strerror(errno));
+  tok2->file->include_next_idx = next_idx;
 
   guard_name = detect_include_guard(tok2);
   if (guard_name)
@@ -869,21 +877,23 @@ static Token *preprocess2(Token *tok) {
       if (filename[0] != '/' && is_dquote) {
         char *path = format("%s/%s", dirname(strdup(start->file->name)), filename);
         if (file_exists(path)) {
-          tok = include_file(tok, path, start->next->next);
+          tok = include_file(tok, path, start->next->next, 0);
           continue;
         }
       }
 
       char *path = search_include_paths(filename);
-      tok = include_file(tok, path ? path : filename, start->next->next);
+      tok = include_file(tok, path ? path : filename, start->next->next,
+                         path ? include_next_idx : 0);
       continue;
     }
 
     if (equal(tok, "include_next")) {
       bool ignore;
       char *filename = read_include_filename(&tok, tok->next, &ignore);
-      char *path = search_include_next(filename);
-      tok = include_file(tok, path ? path : filename, start->next->next);
+      char *path = search_include_next(filename, start->file->include_next_idx);
+      tok = include_file(tok, path ? path : filename, start->next->next,
+                         path ? include_next_idx : 0);
       continue;
     }
 
